@@ -604,8 +604,13 @@ func wNAT(iters int) {
 		{MappingBehavior: vnet.EndpointAddrPortDependent, FilteringBehavior: vnet.EndpointAddrPortDependent, MappingLifeTime: 3 * time.Millisecond},
 		{MappingBehavior: vnet.EndpointAddrDependent, FilteringBehavior: vnet.EndpointAddrDependent, MappingLifeTime: 30 * time.Second},
 		{Mode: vnet.NATModeNAT1To1},
+		// mapping broader than filtering: an existing mapping gains a permission whenever its owner contacts a new
+		// remote, while replies to earlier remotes are being admitted through the same mapping
+		{MappingBehavior: vnet.EndpointIndependent, FilteringBehavior: vnet.EndpointAddrPortDependent, MappingLifeTime: 30 * time.Second},
+		{MappingBehavior: vnet.EndpointIndependent, FilteringBehavior: vnet.EndpointAddrDependent, MappingLifeTime: 5 * time.Millisecond},
+		{MappingBehavior: vnet.EndpointAddrDependent, FilteringBehavior: vnet.EndpointAddrPortDependent, MappingLifeTime: 30 * time.Second},
 	}
-	for k := 0; k < iters/60+1; k++ {
+	for k := 0; k < iters/40+1; k++ {
 		nt := types[k%len(types)]
 		wan, err := vnet.NewRouter(&vnet.RouterConfig{CIDR: "1.2.3.0/24", LoggerFactory: vn.Silent()})
 		if err != nil {
@@ -685,8 +690,28 @@ func wNAT(iters int) {
 					}
 				}()
 			}
+			// a long-lived socket: replies keep coming in through its mapping while it keeps contacting remotes it has
+			// not contacted before (ports nobody listens on), each of which adds a permission to the same mapping
 			c, _ := h.ListenUDP("udp", &net.UDPAddr{IP: net.IPv4zero})
 			clients = append(clients, c)
+			wg.Add(2)
+			go func() {
+				defer wg.Done()
+				for n := 0; atomic.LoadInt32(&stop) == 0; n++ {
+					c.WriteTo([]byte("ping"), vn.UDP("1.2.3.4", 7000+n%2))
+					c.WriteTo([]byte("knock"), vn.UDP([]string{"1.2.3.4", "1.2.3.5", "1.2.3.77"}[n%3], 8000+rand.Intn(20000)))
+					op()
+				}
+			}()
+			go func() {
+				defer wg.Done()
+				buf := make([]byte, 100)
+				for {
+					if _, _, err := c.ReadFrom(buf); err != nil {
+						return
+					}
+				}
+			}()
 		}
 		for i := 0; i < 2; i++ { // name resolution walks lan -> wan resolvers while names are being added
 			i := i
@@ -741,7 +766,7 @@ func main() {
 	rand.Seed(*seed*7 + int64(*shard))
 	installYield(*seed)
 	r := res.New("C19")
-	r.Rule = "dedicated concurrent client programs (parallel construction of independent networks; one vnet socket from 7 goroutines; bind/close storm; token bucket Set under traffic; AddChunkFilter, delay and loss filters under traffic; every packetio.Buffer method concurrently; Deadline Set/Done/Err against expiring timers; dpipe both ends; UDP listener Accept/Close/conn I/O with and without batching; netctx Close during I/O; Bridge writes/Tick/configuration; many flows through one NAT in both directions with expiring mappings for four NAT types, and host-name lookups concurrent with AddHost) under the Go race detector, free-running and with sync-free random delays at instrumented synchronisation points; reports are counted from GORACE log files and de-duplicated by the pair of innermost pion/transport frames"
+	r.Rule = "dedicated concurrent client programs (parallel construction of independent networks; one vnet socket from 7 goroutines; bind/close storm; token bucket Set under traffic; AddChunkFilter, delay and loss filters under traffic; every packetio.Buffer method concurrently; Deadline Set/Done/Err against expiring timers; dpipe both ends; UDP listener Accept/Close/conn I/O with and without batching; netctx Close during I/O; Bridge writes/Tick/configuration; many flows through one NAT in both directions with expiring mappings for seven NAT types (incl. mapping broader than filtering), and host-name lookups concurrent with AddHost) under the Go race detector, free-running and with sync-free random delays at instrumented synchronisation points; reports are counted from GORACE log files and de-duplicated by the pair of innermost pion/transport frames"
 	r.Assumptions = []string{"happens-before race detection reports only races whose two accesses occur in a run", "replay detectors and attaching a Net to a router while its sockets send are not documented concurrent-safe and are excluded"}
 	name := *wl
 	if name == "" {
